@@ -1,7 +1,7 @@
 """C15 — staking rewards: decided necessary conditions (DESIGN.md §5 C15)."""
 from vlib import q
 from vlib.cfg import cfg_of
-from vlib.prov import peel, fmt, is_param, contains, alts, leaves, is_param_field, same_origin, deep_peel
+from vlib.prov import peel, fmt, is_param, contains, alts, leaves, is_param_field, same_origin, deep_peel, just
 from rules.C14 import store_calls, STAKES, VINFO, SK, _succ_dom, _arm
 
 LEVEL = "other"
@@ -210,7 +210,7 @@ def r3(ctx, cfg):
             ok = len(rr) == 1
             if ok:
                 ra = P.call_args(f, rr[0][1], rr[0][0])
-                ok = is_param(ra[4], "sender") and contains(ra[5], lambda x: is_param_field(x, "msg", "validator")) and is_param(ra[2], "storage") and _succ_dom(P, f, b, DK + "remove_rewards")
+                ok = is_param(ra[4], "sender") and just(ra[5], lambda x: is_param_field(x, "msg", "validator")) and is_param(ra[2], "storage") and _succ_dom(P, f, b, DK + "remove_rewards")
             ctx.ob(R, DEXEC, "pending-reward-of(sender, validator)-removed-first", ok, "remove_rewards is not called for (sender, msg.validator) before minting", fn=f,
                    sample="remove_rewards(api, storage, block, &sender, &validator)?")
     f = ctx.need_fn(R, DK + "remove_rewards")
